@@ -82,14 +82,14 @@ func vfH_C08_v1_tcp() {
 	c := &Conn{Conn: sock}
 	remote := c.RemoteAddr()
 	local := c.LocalAddr()
-	vfrt.Observe("accepted", c.headerErr == nil)
+	vfrt.Observe("accepted", vfHeaderErr(c) == nil)
 	if six {
 		vfrt.Reach("v1-tcp6")
 	} else {
 		vfrt.Reach("v1-tcp4")
 	}
-	vfrt.Assert(c.headerErr == nil, "v1/well-formed-accepted")
-	if c.headerErr != nil {
+	vfrt.Assert(vfHeaderErr(c) == nil, "v1/well-formed-accepted")
+	if vfHeaderErr(c) != nil {
 		return
 	}
 	vfrt.Assert(sock.pos == len(line), "v1/consumed-exactly-line")
@@ -124,15 +124,15 @@ func vfH_C08_v1_unknown() {
 	local := c.LocalAddr()
 	if len(line) <= 107 {
 		vfrt.Reach("v1-unknown-accepted")
-		vfrt.Assert(c.headerErr == nil, "v1/unknown-accepted")
+		vfrt.Assert(vfHeaderErr(c) == nil, "v1/unknown-accepted")
 		vfrt.Assert(remote == sock.remote && local == sock.local, "v1/unknown-uses-socket-addrs")
-		if c.headerErr == nil {
+		if vfHeaderErr(c) == nil {
 			vfrt.Assert(sock.pos == len(line), "v1/unknown-consumed-exactly-line")
 			vfrt.Assert(vfPayloadIntact(c, payload), "v1/unknown-payload-intact")
 		}
 	} else {
 		vfrt.Reach("v1-unknown-108-rejected")
-		vfrt.Assert(c.headerErr != nil, "v1/oversized-line-rejected")
+		vfrt.Assert(vfHeaderErr(c) != nil, "v1/oversized-line-rejected")
 		vfrt.Assert(remote == sock.remote, "v1/oversized-uses-socket-addr")
 	}
 }
